@@ -192,6 +192,15 @@ def _saw(env, s, b, napp, perf, table=None, timeout=2, enc="float", inner_kind="
     else:
         inner = pl.pool().UncertaintySampling(method="least_confident", random_state=s.seed, missing_label=missing)
         qkw = dict(clf=clf, fit_clf=False)
+    # the wrapped strategy's own answer is recorded: the wrapper must take the samples in that order (C20)
+    ranking = []
+    _inner_query = inner.query
+
+    def _recording_query(*a, **k):
+        r = _inner_query(*a, **k)
+        ranking.append([int(i) for i in (r[0] if isinstance(r, tuple) else r)])
+        return r
+    inner.query = _recording_query
     w = P.SingleAnnotatorWrapper(strategy=inner, random_state=s.seed, missing_label=missing)
     A_perf = None
     if perf == "vector":
@@ -223,6 +232,12 @@ def _saw(env, s, b, napp, perf, table=None, timeout=2, enc="float", inner_kind="
     for p in pairs:
         if p[0] not in order:
             order.append(p[0])
+    if len(ranking) == 1:
+        # (a sample the wrapped strategy ranks but for which no annotator is available cannot be taken: skipped)
+        has_annotator = {j for (j, a) in s.avail}
+        ranked = [i for i in ranking[0] if i in has_annotator]
+        env.prove(order == ranked[:len(order)], "samples_in_the_order_of_the_wrapped_strategy",
+                  info=dict(pairs=pairs, wrapped_strategy_ranking=ranking[0]))
     per = {i: sum(1 for p in pairs if p[0] == i) for i in order}
     navail = {i: sum(1 for (j, a) in s.avail if j == i) for i in order}
     # an array-like request gives the number for the k-th selected sample; its last entry is used for all further samples
